@@ -135,6 +135,19 @@ def chunked_inputs(d, kind):
         n += 1
 
 
+def aiff_rate_inputs(d, stride=1):
+    """the 80-bit extended float of the AIFF COMM chunk: every exponent (sign 0 and 1) with mantissas at the
+    extremes, so that every overflow path of the float decoding is reached"""
+    p = d.find(b"COMM")
+    if d[:4] != b"FORM" or p < 0 or p + 26 > len(d):
+        return
+    q = p + 8 + 8            # channels(2) frames(4) bits(2) then the 10-byte rate
+    for sign in (0, 0x8000):
+        for e in range(0, 0x8000, stride):
+            for mant in (b"\x80\x00\x00\x00\x00\x00\x00\x00", b"\xff" * 8):
+                yield "aiff-rate@exp=%04x" % (sign | e), d[:q] + (sign | e).to_bytes(2, "big") + mant + d[q + 10:]
+
+
 def flac_inputs(d):
     off = 0
     if d[:3] == b"ID3" and len(d) > 10:
@@ -291,8 +304,12 @@ def id3_frame_inputs(seed=1):
             data = bytes(fr._writeData(ID3SaveConfig(4, None)))[:64]
         except Exception:
             continue
+        # the whole value is one or two arbitrary bytes after the first (encoding) byte
+        for v in range(256):
+            out.append(("id3-frame-short-value:%s=%02x" % (name, v), tag_of(name, data[:1] + bytes([v]))))
+            out.append(("id3-frame-short-value:%s=%02x%02x" % (name, v, v), tag_of(name, data[:1] + bytes([v, v]))))
         for k in range(min(len(data), 20)):
-            for v in (0x00, 0x7F, 0x80, 0xFF):
+            for v in (range(256) if k in (1, 2) else (0x00, 0x7F, 0x80, 0xFF)):
                 if data[k] != v:
                     out.append(("id3-frame-byte:%s@%d=%02x" % (name, k, v), tag_of(name, data[:k] + bytes([v]) + data[k + 1:])))
     return out
@@ -317,6 +334,7 @@ def structured(name, d):
         gens.append(mp4_inputs(d))
         gens.append(mp4_short_tables(d))
     if fam in ("aiff", "wave", "dff"): gens.append(chunked_inputs(d, fam))
+    if fam == "aiff" and len(d) < 20000: gens.append(aiff_rate_inputs(d, 1))
     if fam == "flac": gens.append(flac_inputs(d))
     if fam == "asf":
         gens.append(asf_inputs(d))
